@@ -40,6 +40,13 @@ CHECKS["C02"] = dict(
   note="Trusts the harness reader (cross-checked against the printer's intent on every printed text). The four constructs the property excludes and invalid UTF-8 are counted, not judged.",
   design="DESIGN.md section 4, C02")
 
+CHECKS["C16"] = dict(
+  category="exploration",
+  technique="differential testing of positions against an independent position-tracking RFC 7950 reader: exhaustive short texts + rapid layout generation with single lexical/syntactic fault injection, and generated valid modules with one injected semantic fault",
+  text="Statement.Location() of every statement of every accepted text, and the position in the first error line of every rejected text whose first fault is of a listed kind, are compared with positions computed by the harness's own reader (1-based line, character column) on all texts of up to 5/6 fragments over a 16-fragment alphabet and on printed forests with tabs, multi-byte characters, comments, multi-line strings and CRLF. For semantic faults a small valid-module generator (module + included submodule) plants exactly one fault of each listed kind; every file:line:col in every returned error must be a statement start of that file and an error must lead with the culprit statement, whose position the printer recorded. The unfaulted set must load cleanly for a case to be judged.",
+  note="Trusts the harness reader and printer (cross-checked against each other). End-of-input reports, cascades after the first line, faults goyang does not report at all or reports without a position are counted, not judged. One open finding (cross-kind module field position) is listed in known_findings.json.",
+  design="DESIGN.md section 4, C16")
+
 PENDING = {}
 
 def main():
